@@ -168,6 +168,9 @@ static void observe_map(qtreetbl_t *t, const model_t *m, const char *after) {
             if (d && nm) hold(d, v->b, v->n, "get(newmem)");
         }
     }
+    /* optional out-parameters omitted: same answers */
+    { int any = m_count(m) > 0; void *a = t->find_min(t, NULL), *b = t->find_max(t, NULL); if ((a != NULL) != any || (b != NULL) != any) vc_viol("map:null-size-pointer", "after %s: find_min/find_max without a size pointer disagree with the map", after); free(a); free(b);
+      for (int i = 0; i < U; i++) { void *d = is_strcfg() ? t->get(t, (const char *)KEY[i].b, NULL, false) : t->getobj(t, KEY[i].b, KEY[i].n, NULL, false); int want = m->present[i] && VAL[m->val[i]].n; if ((d != NULL) != want) vc_viol("map:null-size-pointer", "after %s: get of key %d without a size pointer disagrees with the map", after, i); } }
     /* find_min / find_max */
     for (int mx = 0; mx < 2; mx++) {
         size_t ns = 777; errno = 0;
